@@ -1,6 +1,7 @@
 package harness
 
 import (
+	"fmt"
 	"math"
 	"sort"
 
@@ -17,13 +18,14 @@ type C17Case struct {
 	Floats []uint64 `json:"floats,omitempty"`
 	Tree   *V       `json:"tree,omitempty"` // list of any kinds (reverse / badsort)
 	Twice  bool     `json:"twice,omitempty"`
+	Route  int      `json:"route,omitempty"` // construction route (see listByRoute)
 }
 
 var sortStrings = []string{"", "a", "b", "ab", "abc", "B", "é", "e", "z", "aa", "a ", "\x00", "ÿ", "😀", "A", "a\x00"}
 
 func GenC17(t *rapid.T) *C17Case {
 	n := []int{1, 2, 3, 4, 5, 6, 7, 8, 9, 12, 13, 16, 17, 25, 32, 33, 40}[drawIdx(t, 17, "n")]
-	c := &C17Case{Twice: drawBool(t, "twice")}
+	c := &C17Case{Twice: drawBool(t, "twice"), Route: drawInt(t, 0, 7, "route")}
 	shape := drawInt(t, 0, 3, "shape") // 0 random, 1 sorted, 2 reverse sorted, 3 duplicate-heavy
 	switch pick(t, "mode", 25, 25, 25, 17, 8) {
 	case 0:
@@ -106,29 +108,32 @@ func CheckC17(c *C17Case, st *Stats) error {
 	st.Count("mode." + c.Mode)
 	switch c.Mode {
 	case "strings", "ints", "floats":
-		l := at.NewList()
-		var n int
+		shape := V{K: KList}
+		var elems []any
 		switch c.Mode {
 		case "strings":
 			for _, s := range c.Strs {
-				l.Add(s)
+				shape.L = append(shape.L, VStr(s))
+				elems = append(elems, s)
 			}
-			n = len(c.Strs)
 		case "ints":
 			for _, i := range c.Ints {
-				l.Add(int(i))
+				shape.L = append(shape.L, VInt(int(i)))
+				elems = append(elems, int(i))
 			}
-			n = len(c.Ints)
 		case "floats":
 			for _, f := range c.Floats {
 				x := math.Float64frombits(f)
 				if x != x {
 					return nil // NaN is outside the property
 				}
-				l.Add(x)
+				shape.L = append(shape.L, VFloat(x))
+				elems = append(elems, x)
 			}
-			n = len(c.Floats)
 		}
+		n := len(elems)
+		l := listByRoute(shape, elems, c.Route%8, n)
+		st.Count(fmt.Sprintf("route.%d", c.Route%8))
 		if n == 0 {
 			return nil
 		}
@@ -232,7 +237,7 @@ func CheckC17(c *C17Case, st *Stats) error {
 		if c.Tree == nil || c.Tree.K != KList {
 			return nil
 		}
-		l := BuildList(*c.Tree)
+		l := BuildVariant(*c.Tree, c.Route).(at.List)
 		n := l.Count()
 		orig := l.Slice()
 		before, _ := TakeIdentSnap(l)
